@@ -65,15 +65,14 @@ def has_stable_exit(impl_line):
 # ---- matcher -------------------------------------------------------------------------------------
 
 def coarse_guarded(o):
-    """guarded arithmetic whose comparison tolerance (half a unit of the last *precision* digit) is at least 0.005 votes: precision <= 2 with
-    guard digits - the configurations in which builtin min()/max() over Guarded's non-transitive comparison was seen to pick a reference
-    that is not the extreme (finding G2)"""
+    """guarded arithmetic with guard digits (a non-zero comparison tolerance): the configurations in which builtin min()/max() over Guarded's
+    non-transitive comparison can pick a reference that is not the extreme (finding G2)"""
     try:
         if o.get('arithmetic') != 'guarded' or 'precision' not in o:
             return False
         p = int(o['precision'])
         g = int(o['guard']) if o.get('guard') is not None else p      # Guarded.initialize: guard defaults to the precision
-        return g > 0 and p <= 2
+        return g > 0          # seen at precision 0; the mechanism (a chain of tallies each within the tolerance of the next) exists at any precision
     except (TypeError, ValueError):
         return False
 
